@@ -844,3 +844,193 @@ Proof.
   destruct (ver =? 0), is_m; cbn; try discriminate; intros [= <-];
     exists h, data; apply Nat.eqb_eq in L; repeat split; auto.
 Qed.
+
+(* ---------------------------------------------------------------------------------------------- *)
+(* text level: for EVERY decoder/encoder pair with decode (encode d) = Some d *)
+Section TextLevel.
+Variable b58 : text -> option bytes.
+Variable b58enc : bytes -> text.
+Hypothesis Hrt : forall d, b58 (b58enc d) = Some d.
+Variable mulG : Z -> Z * Z.
+Variable modsqrt : Z -> Z.
+
+Lemma via_b58_inv f s o : via_b58 b58 f s = Ret (Some o) -> exists d, b58 s = Some d /\ f d = Ret (Some o).
+Proof. unfold via_b58. destruct (b58 s) as [d|]; [|discriminate]. eauto. Qed.
+
+Lemma via_b58_enc f d : via_b58 b58 f (b58enc d) = f d.
+Proof. unfold via_b58. rewrite Hrt. reflexivity. Qed.
+
+Lemma p2pkh_text_reserialize net s o :
+  p2pkh b58 net s = Ret (Some o) ->
+  exists d, p2pkh_payload net o = Some d /\ p2pkh b58 net (b58enc d) = Ret (Some o).
+Proof.
+  intros H. apply via_b58_inv in H as (d & _ & H). exists d. split. apply p2pkh_reserialize, H.
+  unfold p2pkh. rewrite via_b58_enc. exact H.
+Qed.
+
+Lemma p2sh_text_reserialize net s o :
+  p2sh b58 net s = Ret (Some o) ->
+  exists d, p2sh_payload net o = Some d /\ p2sh b58 net (b58enc d) = Ret (Some o).
+Proof.
+  intros H. apply via_b58_inv in H as (d & _ & H). exists d. split. apply p2sh_reserialize, H.
+  unfold p2sh. rewrite via_b58_enc. exact H.
+Qed.
+
+Lemma wif_text_reserialize net s o :
+  wif b58 mulG net s = Ret (Some o) ->
+  exists d, wif_payload net o = Some d /\ wif b58 mulG net (b58enc d) = Ret (Some o).
+Proof.
+  intros H. apply via_b58_inv in H as (d & _ & H). exists d. split. apply (wif_reserialize mulG modsqrt), H.
+  unfold wif. rewrite via_b58_enc. exact H.
+Qed.
+
+Lemma hd_of_payload_other_prefix p q kind d o :
+  hd_of_payload mulG modsqrt (Some p) kind d = Ret (Some o) ->
+  hd_of_payload mulG modsqrt (Some q) kind d = Ret (Some o) \/ hd_of_payload mulG modsqrt (Some q) kind d = Ret None.
+Proof.
+  unfold hd_of_payload. destruct (negb (starts_with p d)); [discriminate|]. intros H.
+  destruct (negb (starts_with q d)); auto.
+Qed.
+
+Definition hd_prefixes_ok (net : netcfg) (kind : hdkind) : Prop :=
+  exists p q, n_hd_prv net kind = Some p /\ n_hd_pub net kind = Some q /\ length p = 4%nat /\ length q = 4%nat.
+
+Lemma hd_text_reserialize net kind s o :
+  hd_prefixes_ok net kind ->
+  hd_any b58 mulG modsqrt net kind s = Ret (Some o) ->
+  exists d, hd_payload net o = Some d /\ hd_any b58 mulG modsqrt net kind (b58enc d) = Ret (Some o).
+Proof.
+  intros (p & q & Pp & Pq & Lp & Lq) H.
+  assert (Hparsed : exists pre d0, hd_of_payload mulG modsqrt (Some pre) kind d0 = Ret (Some o)).
+  { unfold hd_any, hd_prv, hd_pub in H. rewrite Pp, Pq in H.
+    destruct (via_b58 b58 (hd_of_payload mulG modsqrt (Some p) kind) s) as [[o'|]| |] eqn:E1; cbn [orelse] in H; try discriminate.
+    - inversion H; subst o'. apply via_b58_inv in E1 as (d0 & _ & E1). eauto.
+    - apply via_b58_inv in H as (d0 & _ & H). eauto. }
+  destruct Hparsed as (pre & d0 & H0).
+  set (pre' := if obj_is_private o then p else q).
+  assert (L' : length pre' = 4%nat) by (unfold pre'; destruct (obj_is_private o); assumption).
+  assert (P' : (if obj_is_private o then n_hd_prv net kind else n_hd_pub net kind) = Some pre')
+    by (unfold pre'; destruct (obj_is_private o); assumption).
+  destruct (hd_reserialize mulG modsqrt net pre kind d0 o pre' H0 L' P') as [Hpay Hre].
+  exists (pre' ++ skipn 4 d0). split; [exact Hpay|].
+  unfold hd_any, hd_prv, hd_pub. rewrite !via_b58_enc, Pp, Pq.
+  destruct (hd_of_payload_other_prefix _ p _ _ _ Hre) as [E|E]; rewrite E; cbn [orelse]; [reflexivity|].
+  destruct (hd_of_payload_other_prefix _ q _ _ _ Hre) as [E'|E']; rewrite E'; [reflexivity|].
+  (* pre' is p or q, so one of them parses *)
+  exfalso. unfold pre' in *. destruct (obj_is_private o); rewrite Hre in *; discriminate.
+Qed.
+
+End TextLevel.
+
+(* every network of the table that defines an extended-key kind defines both 4-byte prefixes *)
+Definition hd_prefixes_okb (net : netcfg) (kind : hdkind) : bool :=
+  match n_hd_prv net kind, n_hd_pub net kind with
+  | Some p, Some q => Nat.eqb (length p) 4 && Nat.eqb (length q) 4
+  | None, None => true
+  | _, _ => false
+  end.
+Lemma table_hd_prefixes : forallb (fun net => forallb (hd_prefixes_okb net) [Bip32; Bip49; Bip84]) table_cfgs = true.
+Proof. vm_compute. reflexivity. Qed.
+
+Lemma hd_prefixes_okb_ok net kind p : hd_prefixes_okb net kind = true -> n_hd_prv net kind = Some p -> hd_prefixes_ok net kind.
+Proof.
+  unfold hd_prefixes_okb, hd_prefixes_ok. intros H Hp. rewrite Hp in H. destruct (n_hd_pub net kind) as [q|]; [|discriminate].
+  apply andb_prop in H as [H1 H2]. apply Nat.eqb_eq in H1. apply Nat.eqb_eq in H2. exists p, q. auto.
+Qed.
+
+(* which kind of node comes back is decided by the key marker byte, not by the prefix *)
+Lemma hd_privacy_is_marker mulG modsqrt pre kind d o :
+  hd_of_payload mulG modsqrt pre kind d = Ret (Some o) -> obj_is_private o = bytes_eqb (slice 45 46 d) [x00].
+Proof.
+  unfold hd_of_payload. destruct pre; [|discriminate]. destruct (negb _); [discriminate|]. intros H.
+  apply catch_value_inv in H. unfold hd_deserialize in H. destruct (negb _); [discriminate|].
+  destruct (bytes_eqb (slice 45 46 d) [x00]).
+  - destruct (key_material_private mulG _) as [k| |] eqn:K; cbn [bind] in H; try discriminate.
+    apply key_material_private_inv in K as [pt ->]. injection H as <-. reflexivity.
+  - destruct (sec_to_public_pair modsqrt _) as [pt| |]; cbn [bind] in H; try discriminate.
+    destruct (key_material_public pt) as [k| |] eqn:K; cbn [bind] in H; try discriminate.
+    apply key_material_public_inv in K; subst k. injection H as <-. reflexivity.
+Qed.
+
+(* ---------------------------------------------------------------------------------------------- *)
+(* concrete witnesses for the defects (honest instances of the oracles: a real decimal parser, the real
+   modular square root pow(a, (p+1)/4, p), the generator itself for exponent 1) *)
+Local Transparent Z.pow Z.modulo Z.mul Z.add Z.sub Z.land.
+
+Fixpoint powmod_pos (a : Z) (e : positive) (m : Z) : Z :=
+  match e with
+  | xH => a mod m
+  | xO e' => let t := powmod_pos a e' m in (t * t) mod m
+  | xI e' => let t := powmod_pos a e' m in (t * t * a) mod m
+  end.
+Definition modsqrt_real (a : Z) : Z :=
+  match (curve_p + 1) / 4 with Zpos e => powmod_pos a e curve_p | _ => 0 end.
+Definition mulG_w (k : Z) : Z * Z := (curve_gx, curve_gy).    (* only k = 1 is asked by the witnesses *)
+
+Fixpoint dec10_acc (s : text) (acc : Z) : option Z :=
+  match s with
+  | [] => Some acc
+  | c :: r => if (48 <=? c)%N && (c <=? 57)%N then dec10_acc r (10 * acc + Z.of_N (c - 48)) else None
+  end.
+Definition dec10 (s : text) : option Z := match s with [] => None | _ => dec10_acc s 0 end.
+Definition no_int (s : text) : option Z := None.
+
+Definition sym_of_row (r : string * bool * (option bytes * option bytes * option bytes) * (string * option string)
+    * ((option bytes * option bytes) * (option bytes * option bytes) * (option bytes * option bytes))) : string :=
+  fst (fst (fst (fst r))).
+Definition cfg_by_symbol (sym : string) : option netcfg :=
+  option_map cfg_of_row (find (fun r => String.eqb (sym_of_row r) sym) parse_networks).
+Definition empty_cfg : netcfg :=
+  {| n_disabled := false; n_address := None; n_p2sh := None; n_wif := None; n_sec_prefix := []; n_hrp := None;
+     n_hd_prv := fun _ => None; n_hd_pub := fun _ => None |}.
+Definition btc_cfg : netcfg := match cfg_by_symbol "btc" with Some c => c | None => empty_cfg end.
+
+Definition y_for_x1 : Z := 29896722852569046015560700294576055776214335159245303116488692907525646231534.
+
+(* 1. the text form of a public key ("BTCSEC:02...") is not parsed back *)
+Definition w_sec_hex : text :=
+  text_of_string "020000000000000000000000000000000000000000000000000000000000000001".
+Definition w_sec_key : obj := OKey (Pub (1, y_for_x1)) true.
+Definition w_sec_text : text :=
+  text_of_string "BTCSEC:020000000000000000000000000000000000000000000000000000000000000001".
+
+Lemma w_sec_parses : public_key dec10 no_int mulG_w modsqrt_real btc_cfg w_sec_hex = Ret (Some w_sec_key).
+Proof. vm_compute. reflexivity. Qed.
+Lemma w_sec_as_text : public_key_text btc_cfg w_sec_key = Ret w_sec_text.
+Proof. vm_compute. reflexivity. Qed.
+Lemma w_sec_not_reparsed : public_key dec10 no_int mulG_w modsqrt_real btc_cfg w_sec_text = Ret None.
+Proof. vm_compute. reflexivity. Qed.
+
+(* 2. public_pair accepts coordinates outside [0, p): x = p + 1 names the point with x = 1 *)
+Definition w_pair_text : text :=
+  text_of_string "115792089237316195423570985008687907853269984665640564039457584007908834671664/even".
+Lemma w_pair_unreduced :
+  public_pair dec10 no_int mulG_w modsqrt_real btc_cfg w_pair_text = Ret (Some (OKey (Pub (curve_p + 1, y_for_x1)) true)).
+Proof. vm_compute. reflexivity. Qed.
+(* ... and for x >= 2^256 the returned key cannot even be turned into text *)
+Definition w_pair_text2 : text :=
+  text_of_string "115792089237316195423570985008687907853269984665640564039457584007913129639936/even".
+Lemma w_pair_overflow :
+  exists o, public_pair dec10 no_int mulG_w modsqrt_real btc_cfg w_pair_text2 = Ret (Some o) /\
+            public_key_text btc_cfg o = Raise E_OVERFLOW.
+Proof. eexists. split; vm_compute; reflexivity. Qed.
+(* the same acceptance through Key.__init__ in electrum_pub *)
+Definition w_electrum_text : text :=
+  text_of_string "E:fffffffffffffffffffffffffffffffffffffffffffffffffffffffefffffc304218f20ae6c646b363db68605822fb14264ca8d2587fdd6fbc750d587e76a7ee".
+Lemma w_electrum_unreduced :
+  electrum_pub btc_cfg w_electrum_text = Ret (Some (OElectrum None (Pub (curve_p + 1, y_for_x1)))).
+Proof. vm_compute. reflexivity. Qed.
+
+(* 3. an xpub-prefixed payload whose key field is 00 || k comes back from bip32_pub as a PRIVATE node *)
+Definition w_hd_payload : bytes :=
+  [x04; x88; xb2; x1e] ++ repeatb x00 (1 + 4 + 4 + 32) ++ [x00] ++ repeatb x00 31 ++ [x01].
+Lemma w_hd_pub_gives_private :
+  hd_pub (fun _ => Some w_hd_payload) mulG_w modsqrt_real btc_cfg Bip32 [] =
+  Ret (Some (OHd Bip32 0 [x00; x00; x00; x00] 0 (repeatb x00 32) (Prv 1 (curve_gx, curve_gy)))).
+Proof. vm_compute. reflexivity. Qed.
+
+(* 4. bip32_seed: `pair[0] in "HP"` is a substring test, so ":" alone is a seed with the empty passphrase *)
+Lemma w_seed_empty_prefix : seed_secret [58%N] = Ret (Some []) /\ seed_secret (text_of_string "HP:abc") = Ret (Some [x61; x62; x63]).
+Proof. split; vm_compute; reflexivity. Qed.
+
+Local Opaque Z.pow Z.modulo Z.mul Z.add Z.sub Z.land.
